@@ -272,3 +272,31 @@ Proof.
   constructor; cbn [sc_sid sc_rid sc_skey sc_iv sc_idctx]; try (split; assumption);
     try apply osc_hkdf_wfb. exact Hc.
 Qed.
+
+(* non-vacuity of the hypotheses of the round-trip theorems: the RFC 8613 appendix C contexts and
+   request meet all of them *)
+From LibcoapV Require Import Oscore.Vectors.
+
+Example osc_roundtrip_hypotheses_met :
+  osc_paired osc_c1_client osc_c1_server /\ osc_ctx_ok osc_c3_client /\
+  osc_sec_bytes osc_c3_client /\
+  osc_msg_ok (osc_c_request 23839 [0; 0; 57; 116]) /\
+  msg_wf (osc_c_request 23839 [0; 0; 57; 116]) /\
+  osc_is_request (m_code (osc_c_request 23839 [0; 0; 57; 116])) = true.
+Proof.
+  split; [apply osc_derive_paired|].
+  split; [unfold osc_ctx_ok; cbn; lia|].
+  split.
+  { apply osc_derive_bytes; try (unfold len; cbn; lia); try (unfold wfb, is_byte; repeat constructor; lia).
+    split; [unfold wfb, is_byte, osc_c_idctx; repeat constructor; lia|unfold len; cbn; lia]. }
+  assert (Hw : Forall opt_wf (m_opts (osc_c_request 23839 [0; 0; 57; 116]))).
+  { cbn. repeat constructor; unfold len; cbn; try lia; unfold is_byte; lia. }
+  assert (Ha : ascending 0 (m_opts (osc_c_request 23839 [0; 0; 57; 116]))) by (cbn; lia).
+  split; [exact (conj Hw (conj Ha (conj eq_refl eq_refl)))|].
+  split; [|reflexivity].
+  constructor; cbn [osc_c_request m_type m_code m_mid m_token m_opts m_payload]; try lia.
+  - split; [unfold len; cbn; lia|unfold wfb, is_byte; repeat constructor; lia].
+  - split; assumption.
+  - reflexivity.
+  - constructor.
+Qed.
